@@ -2,6 +2,7 @@ import TcVerif.Driver.Hist
 import TcVerif.Driver.Judge
 import TcVerif.Driver.Rep
 import TcVerif.Driver.JudgeRep
+import TcVerif.Driver.Store
 
 open Tc.Driver
 
@@ -40,6 +41,52 @@ partial def loopJudge (h : IO.FS.Stream) (out : IO.FS.Stream) (c : JCase) : IO U
   for o in outs do out.putStrLn o
   loopJudge h out c'
 
+partial def loopStore (h : IO.FS.Stream) (out : IO.FS.Stream) (st : SState) : IO Unit := do
+  let line ← h.getLine
+  if line.isEmpty then return ()
+  if line.startsWith "#" then
+    out.putStrLn line.trimAscii.toString
+    loopStore h out (if line.startsWith "# case" then {} else st)
+  else
+    out.putStrLn ("> " ++ line.trimAscii.toString)
+    let (st', outs) := storeLine st line
+    for o in outs do
+      out.putStrLn o
+    loopStore h out st'
+
+/-- family `store`: all cases of one group (the same calls on different backends) must print the
+    same results -/
+partial def loopJudgeStore (h : IO.FS.Stream) (out : IO.FS.Stream) (hdr : String) (cur : Array String)
+    (groups : List (String × Array String)) : IO Unit := do
+  let line ← h.getLine
+  let flush : IO (List (String × Array String)) := do
+    if hdr.isEmpty then return groups
+    let bad := cur.toList.filter fun l => l == "panic" || l == "bad-op"
+    match groupOf hdr with
+    | some g =>
+      match groups.find? (·.1 == g) with
+      | some (_, other) =>
+        if other == cur && bad.isEmpty then out.putStrLn s!"judge {hdr} :: ok"
+        else
+          let i := ((List.range (max other.size cur.size)).find? fun i => other[i]? != cur[i]?).getD 0
+          out.putStrLn s!"judge {hdr} :: FAIL equiv differs line={i} this={(cur[i]?).getD "<end>"} other={(other[i]?).getD "<end>"}"
+        return groups
+      | none =>
+        if bad.isEmpty then out.putStrLn s!"judge {hdr} :: ok" else out.putStrLn s!"judge {hdr} :: FAIL equiv panic-or-bad-op"
+        return (g, cur) :: groups
+    | none =>
+      if bad.isEmpty then out.putStrLn s!"judge {hdr} :: ok" else out.putStrLn s!"judge {hdr} :: FAIL equiv panic-or-bad-op"
+      return groups
+  if line.isEmpty then
+    let _ ← flush
+    return ()
+  let l := (line.dropEndWhile (· == '\n')).toString
+  if l.startsWith "# case" then
+    let groups' ← flush
+    loopJudgeStore h out l #[] groups'
+  else
+    loopJudgeStore h out hdr (cur.push l) groups
+
 partial def loopJudgeRep (h : IO.FS.Stream) (out : IO.FS.Stream) (j : RJ) : IO Unit := do
   let line ← h.getLine
   if line.isEmpty then
@@ -57,6 +104,8 @@ def main (args : List String) : IO UInt32 := do
   | ["judge", "hist"] => loopJudge stdin stdout {}; return 0
   | ["model", "rep"] => loopRep stdin stdout {}; return 0
   | ["judge", "rep"] => loopJudgeRep stdin stdout {}; return 0
+  | ["model", "store"] => loopStore stdin stdout {}; return 0
+  | ["judge", "store"] => loopJudgeStore stdin stdout "" #[] []; return 0
   | _ =>
     IO.eprintln "usage: tcmodel model <family> < ops.txt"
     return 2
